@@ -34,7 +34,7 @@ func noteProgram(res *report.Result, classes map[string]int, n *vg.Node, b []byt
 // C01: writer -> reader round trip.
 func C01(c *runner.Cfg) *report.Result {
 	res := report.New("C01", "")
-	res.Rule = "write programs = bounded-exhaustive trees (<=3 nodes over the boundary alphabet, both field orders) + boundary shapes + seeded random trees + all permutations of small messages, each executed over the public writer API under a writer mode (fresh/reset/reset-after-failure/pooled/pooled-dirty-buffer) and compared with the shadow tree through every reader accessor; non-trivial = >=2 nodes or on a boundary class; distinct = distinct produced encodings"
+	res.Rule = "write programs = bounded-exhaustive trees (<=3 nodes over the boundary alphabet, both field orders) + boundary shapes + a buffer-growth sweep (lists of 0..150 elements, messages of 0..79 fields, nested containers closing after strings/bytes of every length 0..309, on the default buffer, an empty buffer, a fresh buffer and a pooled writer) + seeded random trees + clones of opened messages/lists through every clone entry point (nil/short/roomy/exact/longer destinations holding an earlier value, buffer, arena) read back as returned after the source buffer has been reused + all permutations of small messages, each executed over the public writer API under a writer mode (fresh/reset/reset-after-failure/pooled/pooled-dirty-buffer/empty-buffer) and compared with the shadow tree through every reader accessor; non-trivial = >=2 nodes or on a boundary class; distinct = distinct produced encodings"
 	type local struct {
 		x       *vg.Exec
 		classes map[string]int
@@ -117,6 +117,8 @@ func C01(c *runner.Cfg) *report.Result {
 	}
 	run("exh", len(exhaustive()))
 	run("shape", c.N(600, 20000))
+	run("grow", 4*vg.GrowShapes) // fixed sweep, independent of the scale
+	clones(c, res)
 	run("rand", c.N(3000, 200000))
 	run("perm", c.N(150, 3000))
 	if c.Only == "" {
